@@ -13,6 +13,9 @@ Sym2 == Permutations({V2, V3})
 
 View == <<node, sent, restarts>>
 
+\* diagnostic only (unsound as a reduction): the state without the mirrors' message sets
+ViewCtl == <<[i \in Corr |-> Ctl(node[i])], sent, restarts>>
+
 Good == Agreement /\ Contiguous
 
 Next == /\ Good                                   \* a violating state is terminal: its history is the witness
